@@ -42,7 +42,7 @@ pub fn lines_for<T: Schema + Serialize + Samples>(r: &mut Rng, nrand: usize, out
 }
 
 macro_rules! corpus {
-    ($r:ident, $n:ident, $out:ident; $($t:ty),* $(,)?) => { $( lines_for::<$t>($r, $n, $out); )* };
+    ($r:ident, $n:ident, $out:ident, $dyn:ident; $($t:ty),* $(,)?) => { $( if $dyn { crate::ops_dyn::agree_lines::<$t>($r, $n, $out); } else { lines_for::<$t>($r, $n, $out); } )* };
 }
 
 // ---- hand-written derived types: unit, newtype, tuple, named, generic, lifetime-carrying, nested, zero-field forms
@@ -103,7 +103,12 @@ impl Samples for RawVariants {
 
 pub fn gen_c14(r: &mut Rng, thorough: bool, out: &mut Vec<String>) {
     let n = if thorough { 40 } else { 4 };
-    corpus!(r, n, out;
+    for_each_corpus_type(r, n, out, false);
+}
+
+/// the corpus of concrete Rust types with Schema + Serialize: C14 lines (dynamic = false) or C17 lines
+pub fn for_each_corpus_type(r: &mut Rng, n: usize, out: &mut Vec<String>, dynamic: bool) {
+    corpus!(r, n, out, dynamic;
         u8, u16, u32, u64, u128, i8, i16, i32, i64, i128, bool, f32, f64, char, (), String, &'static str, std::path::PathBuf,
         NonZeroU8, NonZeroU16, NonZeroU32, NonZeroU64, NonZeroU128, NonZeroI8, NonZeroI16, NonZeroI32, NonZeroI64, NonZeroI128,
         Option<u16>, Option<Option<String>>, Option<()>, Result<u8, String>, Result<(), Vec<u8>>, Result<Option<i64>, (u8, u8)>,
@@ -120,7 +125,7 @@ pub fn gen_c14(r: &mut Rng, thorough: bool, out: &mut Vec<String>) {
         UnitS, NewS, TupS, Tup0, Named0, Point, GenS<u8, String>, GenS<Point, Option<u16>>, Life<'static>, Nested, AllKinds, OneVar,
         GenE<u8>, GenE<Point>, GenE<GenE<String>>, r#RawName, RawFields, RawVariants, Vec<AllKinds>, Option<Nested>, BTreeMap<String, AllKinds>,
     );
-    crate::generated_schema::generated_schema_lines(r, n, out);
+    crate::generated_schema::generated_schema_lines(r, n, out, dynamic);
 }
 
 pub fn eval(_ctx: &mut Ctx, op: &str, _args: &[Sexp]) -> Option<String> {
